@@ -185,7 +185,7 @@ def sample(ctx, budget=1.0, hint=None, broken=None):
             fails.append(Failure(signature=sig, what=what, input=inp, observed=obs, expected=exp, repro=repro))
 
     for it in range(int(ctx.n(200, 2500) * budget)):
-        kind = r.choice(['line', 'quad', 'cubic', 'cubic', 'arc', 'arc-circle'])
+        kind = r.choice(['line', 'quad', 'cubic', 'cubic', 'arc', 'arc-circle', 'cubic-nearly-straight', 'quad-nearly-straight'])
         scale = r.choice([1.0, 1.0, 1e-2, 1e3, 1e-9])     # incl. tiny drawings: a regular point whose derivative is small in absolute terms
         if kind in ('arc', 'arc-circle'):
             z0 = complex(r.uniform(-1, 1), r.uniform(-1, 1)) * scale
@@ -195,6 +195,17 @@ def sample(ctx, budget=1.0, hint=None, broken=None):
             rx = r.uniform(0.6, 3) * abs(z1 - z0)
             ry = rx if kind == 'arc-circle' else r.uniform(0.6, 3) * abs(z1 - z0)
             seg = P.Arc(z0, complex(rx, ry), r.choice([0, 0, 30, -45.5, 90, 200.5, 270]), r.random() < 0.5, r.random() < 0.5, z1)
+        elif kind in ('cubic-nearly-straight', 'quad-nearly-straight'):
+            # gently curved strokes: control points almost collinear, unevenly spaced, bulging by 1e-4 .. 1e-9 of the chord (first and
+            # second derivative almost parallel: the cross product in the curvature formula is a small difference of large numbers)
+            a_ = complex(r.uniform(-1, 1), r.uniform(-1, 1)) * scale
+            d_ = cmath.exp(1j * r.uniform(0, 6.28)) * scale * r.choice([1.0, 300.0])
+            lam_ = sorted(r.uniform(0.05, 0.95) for _ in range(2))
+            b1_, b2_ = [r.choice([1e-4, 1e-6, 1e-7, 1e-9]) * r.choice([1, -1, 0.3]) for _ in range(2)]
+            if kind.startswith('cubic'):
+                seg = P.CubicBezier(a_, a_ + d_ * (lam_[0] + 1j * b1_), a_ + d_ * (lam_[1] + 1j * b2_), a_ + d_)
+            else:
+                seg = P.QuadraticBezier(a_, a_ + d_ * (lam_[0] + 1j * b1_), a_ + d_)
         else:
             seg = _rand_seg(spt, r, complex(r.uniform(-1, 1), r.uniform(-1, 1)) * scale, scale, kind)
         desc = repr(seg)
@@ -229,6 +240,25 @@ def sample(ctx, budget=1.0, hint=None, broken=None):
         want = abs(d.real * dd.imag - d.imag * dd.real) / abs(d) ** 3 if kind != 'line' else 0.0
         if abs(kap - want) > 1e-7 * (abs(want) + 1 / scale):
             fail('%s.curvature' % kd, 'curvature is not |x\'y\'\'-y\'x\'\'|/|(x\',y\')|^3', {'seg': desc, 't': t}, repr(kap), repr(want), 'svgpathtools.%s.curvature(%r)' % (desc, t))
+        if kind.endswith('nearly-straight'):
+            # exact curvature from the control points (rationals), compared to a relative 1e-7 plus the rounding of the cross product itself
+            from fractions import Fraction as _F
+            bp_ = [(_F(q_.real), _F(q_.imag)) for q_ in seg.bpoints()]
+            tt_ = _F(t)
+            def _dc(pts_):
+                return [((pts_[i_ + 1][0] - pts_[i_][0]) * (len(pts_) - 1), (pts_[i_ + 1][1] - pts_[i_][1]) * (len(pts_) - 1)) for i_ in range(len(pts_) - 1)]
+            def _ev(pts_):
+                while len(pts_) > 1:
+                    pts_ = [((1 - tt_) * pts_[i_][0] + tt_ * pts_[i_ + 1][0], (1 - tt_) * pts_[i_][1] + tt_ * pts_[i_ + 1][1]) for i_ in range(len(pts_) - 1)]
+                return pts_[0]
+            d1_ = _ev(_dc(bp_)); d2_ = _ev(_dc(_dc(bp_)))
+            cross_ = abs(float(d1_[0] * d2_[1] - d1_[1] * d2_[0]))
+            sp_ = math.hypot(float(d1_[0]), float(d1_[1]))
+            exact_k = cross_ / sp_ ** 3
+            noise_ = 64 * 2.0 ** -52 * math.hypot(float(d2_[0]), float(d2_[1])) / sp_ ** 2
+            if abs(kap - exact_k) > 1e-7 * exact_k + noise_:
+                fail('%s.curvature/nearly straight' % kd, 'curvature of a gently curved stroke is not |x\'y\'\'-y\'x\'\'|/|(x\',y\')|^3 (exact value from the control points)',
+                     {'seg': desc, 't': t}, repr(kap), repr(exact_k), 'svgpathtools.%s.curvature(%r)' % (desc, t))
         if kind == 'arc-circle' and abs(kap - 1 / seg.radius.real) > 1e-7 / seg.radius.real:
             fail('arc.curvature/circle', 'curvature of a circular arc is not 1/r', {'seg': desc, 't': t}, repr(kap), repr(1 / seg.radius.real), 'svgpathtools.%s.curvature(%r)' % (desc, t))
         if kind in ('arc', 'arc-circle'):
